@@ -1811,7 +1811,7 @@ class Interp:
                         if isinstance(m_, ClosureV): el = self.call_closure(m_, [el], e)
                     return inner_fn(el)
             def per(x):
-                r_ = self.call_closure(itv.fn, [x], e)
+                r_ = self.call_closure(itv.fn, [x], e) if itv.fn is not None else x
                 while isinstance(r_, RefV): r_ = r_.place.get()
                 if isinstance(r_, Top): return
                 self.iterate(r_, fn, e)
@@ -2279,6 +2279,7 @@ class Interp:
                     if r is not None: tgt.segs.extend(r); return UNIT
                 return self.top('sink.vec of %r' % (sq,), e)
             w = {'byte': 1, 'word': 2, 'dword': 4, 'qword': 8}[meth]
+            while isinstance(v, RefV) and not is_term(v): v = v.place.get()
             if not is_term(v): return self.top('sink.%s of %r' % (meth, v), e)
             tgt.segs.append(('int', v, w)); return UNIT
         # concrete sink type: virtual dispatch to its impl, falling back to the trait's default body
